@@ -5,7 +5,7 @@ call-by-contract summaries are added automatically (Group.assumes)."""
 
 PROPERTIES = {
     'C04': {
-        'groups': ['SL', 'G2', 'G2e'],
+        'groups': ['SL', 'G2', 'G2e', 'G3', 'G3i', 'Z3'],
         'level': 'other',
         'explanation': 'Contracts on AnsiString._slice_val_to_idx (U-mode: unbounded, all integers and text lengths) and '
                        'AnsiString.__getitem__ (B-mode: bounded-symbolic in the number of change points/markers; text '
@@ -14,10 +14,10 @@ PROPERTIES = {
                        'per-character setting texts in order (Skolemised over all positions), result well-formed and closed '
                        'at its end, IndexError exactly when out of range, source unchanged, result shares no container.',
         'trusted_base': ['representation invariant wf (contracts/spec.py) over-approximates reachable values'],
-        'assumptions': ['clip(), iteration and the AnsiStr wrappers are checked as delegations in group G3 when present'],
+        'assumptions': ['clip() and iteration (one step of the iterator, induction over steps) are proved unbounded on abstract tables relative to the contract of __getitem__ (G3, G3i, Z3); AnsiStr.__getitem__/clip are wrappers (C13)'],
     },
     'C06': {
-        'groups': ['SL', 'F3', 'N1'],
+        'groups': ['SL', 'F3', 'F2', 'N1'],
         'level': 'other',
         'explanation': 'Contract on AnsiString.apply_formatting over bounded-symbolic tables: text unchanged, no-op cases, '
                        'characters outside the slice-normalised range keep their settings in order, inside they gain exactly '
@@ -38,5 +38,44 @@ PROPERTIES = {
         'trusted_base': ['representation invariant wf (contracts/spec.py) over-approximates reachable values',
                          'SGR effect-group table in contracts/spec.py (written from ECMA-48, checked against the library tables in group T1)'],
         'assumptions': [],
+    },
+    'C05': {
+        'groups': ['A1', 'A2', 'A2j', 'A3', 'A3b', 'V5', 'Z4'],
+        'level': 'other',
+        'explanation': 'Contract on AnsiString.__iadd__ over two bounded-symbolic operand tables (text concatenated; every character '
+                       'keeps the setting texts, in order, of its own operand; invariant kept, i.e. nothing open at the seam; right '
+                       'operand untouched; value is self; str / AnsiStr operands).  On top of that contract, unbounded (abstract '
+                       'tables): __add__ = copy then +=, join = left fold of +, and the lemma s[:k] + s[k:] has the per-character '
+                       'settings of s for every k; the same composite is also run on concrete tables with the real slicing and '
+                       'concatenation inlined (shared setting objects, seam merge).',
+        'trusted_base': ['representation invariant wf over-approximates reachable values; setting objects are shared between the '
+                         'two operands only as a.copy() shares them with a (other sharing patterns are not claimed)'],
+        'assumptions': ['join is checked for up to 2/3 arguments'],
+    },
+    'C08': {
+        'groups': ['G2', 'A1', 'F3', 'F2', 'M2', 'V5', 'V3', 'A2', 'G3', 'Z1', 'Z2', 'X4p'],
+        'level': 'other',
+        'explanation': 'C08 is the frame / freshness clause of every contract: __getitem__ leaves the source untouched and shares no '
+                       'container with it; += leaves its right operand untouched; apply/remove_formatting leave the settings argument '
+                       'untouched and _scrub_ansi_settings(make_unique) returns only new setting objects; copy()/AnsiString(s) build '
+                       'a structurally equal value in new containers; for every method with an inplace flag the in-place form '
+                       'returns the receiver and agrees with the copying form, which leaves the receiver untouched (V3); no AnsiStr '
+                       'method touches the value it wraps and results wrap their own value (Z2, unbounded).',
+        'trusted_base': ['representation invariant wf over-approximates reachable values'],
+        'assumptions': ['"mutating either afterwards never changes the other" follows from the per-call separation clauses (no shared '
+                        'dict, change point or marker list; setting objects are immutable)'],
+    },
+    'C13': {
+        'groups': ['Z1', 'Z2', 'Z3', 'Z4', 'Z5', 'Z6', 'V3', 'V5'],
+        'level': 'other',
+        'explanation': 'Unbounded (abstract wrapped value, every AnsiString method an uninterpreted state transformer): each of the 58 '
+                       'AnsiStr methods is its AnsiString counterpart applied to a private copy and wrapped as AnsiStr, all arguments '
+                       'passed through in order, the str payload of every result equals its own rendering, the receiver is never '
+                       'touched; the constructor wraps what AnsiString(source, *settings) builds for all three source kinds; '
+                       'iteration, join and the list-valued methods likewise.  That the in-place form a wrapper calls equals the '
+                       'non-in-place AnsiString form is group V3 (real bodies; abstract tables or bounded concrete ones).',
+        'trusted_base': ['AnsiString methods are deterministic functions of the structural state and their arguments (no id()/hash() '
+                         'dependence: checked syntactically - the only id() use is the cycle detector of _scrub_ansi_settings)'],
+        'assumptions': ['__eq__ (documented to compare renderings) and encode are outside the claim'],
     },
 }
